@@ -398,7 +398,7 @@ def walker_gate(fx):
         for n, (bi, t, h) in enumerate(effects):
             if bi not in eff_blocks:
                 continue
-            ok = cfg.dominates(u, bi)
+            ok = cfg.set_dominates([u_ for (u_, v_) in te], bi)
             obs.append(Ob("R-ORDER", mkkey("R-ORDER", WALKER, q.names(t)[0], n, "after-clobber-gate"), ok, q.loc_of(t),
                           WALKER, "%s is %sdominated by the no_clobber test" % (q.names(t)[0].split("::")[-1],
                                                                               "" if ok else "NOT "),
@@ -482,7 +482,7 @@ def force_conflict(fx):
     for k, (u, v) in enumerate(both):
         obs.append(ro.region_must_fail(fx, m, v, "R-ORDER", mkkey("R-ORDER", MAIN, "no_clobber&&force", k, "must-fail"),
                                        "no_clobber && force", loc=q.loc_of(m.blocks[u]["term"])))
-        ok = bool(sp) and all(any(cfg.dominates(a, s_) for (a, b) in nc + fr) for s_ in sp)
+        ok = bool(sp) and all(cfg.set_dominates([a for (a, b) in nc + fr], s_) for s_ in sp)
         obs.append(Ob("R-ORDER", mkkey("R-ORDER", MAIN, "no_clobber&&force", k, "before-copy"), ok,
                       q.loc_of(m.blocks[u]["term"]), MAIN, "the option conflict is tested before the copy starts: %s" % ok))
     return obs
@@ -849,7 +849,7 @@ def extents_forwarded(fx):
             continue
         h, body = inner
         latches = [u for (u, v) in cfg.back_edges() if v == h and u in body]
-        ok = all(cfg.dominates(bi, u) for u in latches)
+        ok = all(cfg.set_dominates([b2 for b2, t2 in pushes if b2 in body], u) for u in latches)
         obs.append(Ob("R-ORDER", mkkey("R-ORDER", MAP_, "append(Extent)", n, "every-iteration"), ok, q.loc_of(t), MAP_,
                       "every extent returned by FIEMAP is appended to the map (no iteration skips the push): %s" % ok,
                       None if ok else dict(push="bb%d" % bi, latches=latches)))
